@@ -4,12 +4,12 @@ import { loadModule, traced } from '../runtime/evalhost.mjs';
 
 export const id = 'C15';
 
-export const PLACEMENTS = ['fileHead', 'beforeFirst', 'beforeMiddle', 'beforeLast', 'insideFunction', 'trailing', 'afterImportSameLine', 'insideJsx'];
+export const PLACEMENTS = ['fileHead', 'beforeFirst', 'beforeMiddle', 'beforeLast', 'insideFunction', 'trailing', 'afterImportSameLine', 'insideJsx', 'afterHashbang', 'fileHeadThenComment', 'beforeMiddleThenComment', 'fileHeadAfterComment', 'beforeLastBetweenComments'];
 export const STYLES = ['line', 'block', 'jsdocSingle', 'jsdocMulti', 'blockMultiStar'];
 // [text, effect] effect: name | null (no effect) | {anyOf:[...]}
 export const TEXTS = [
   ['@jsx h', 'h'], ['@jsx  h ', 'h'], ['@jsx\th', 'h'], ['@jsx myH', 'myH'], ['@jsx $h', '$h'],
-  ['@jsx h extra words', { anyOf: ['h', null] }], ['@jsx', null], ['@jsx ', null],
+  ['@jsx h extra words', 'h'], ['@jsx h -- the hyperscript factory', 'h'], ['@jsx h (overrides the configuration)', 'h'], ['@jsx', null], ['@jsx ', null],
   ['@jsxImportSource vue', null], ['@jsxRuntime automatic', null], ['@jsxFrag F', null], ['@jsxh', null],
   ['just a comment about jsx', null], ['eslint-disable @jsx-rule', null], ['see @jsx h in the docs', { anyOf: [null] }],
   ['@jsxImportSource vue @jsx h', { anyOf: [null, 'h'] }], ['@license MIT', null],
@@ -29,23 +29,29 @@ function comment(style, text) {
 function moduleWith(placement, c, c2) {
   // several elements and fragments, in and out of functions
   const L = [];
+  const OTHER = '// the widgets below', OTHER2 = '/* eslint-disable no-unused-vars */';
+  if (placement === 'afterHashbang') L.push('#!/usr/bin/env node', c);
+  if (placement === 'fileHeadThenComment') L.push(c, OTHER, OTHER2);
+  if (placement === 'fileHeadAfterComment') L.push(OTHER2, OTHER, c);
   if (placement === 'fileHead') L.push(c);
   L.push(placement === 'afterImportSameLine' ? `import C0 from "probe:C0"; ${c}` : 'import C0 from "probe:C0";');
   if (placement === 'beforeFirst') L.push(c);
   L.push('export const t0 = () => <div id="a" v-show={g0}><span v-foo={g0}>s</span><>frag{g0}</><input v-model={mv} /></div>;');
   if (placement === 'beforeMiddle') L.push(c);
+  if (placement === 'beforeMiddleThenComment') L.push(c, OTHER, OTHER2);
   if (c2) L.push(c2.text);
   L.push('function inner() {');
   if (placement === 'insideFunction') L.push('  ' + c.replace(/\n/g, '\n  '));
   L.push('  return <C0 x={g0} v-bar:arg_m={g0}><i />{g0}</C0>;', '}');
   L.push('export const t1 = () => inner();');
   if (placement === 'beforeLast') L.push(c);
+  if (placement === 'beforeLastBetweenComments') L.push(OTHER, c, OTHER2);
   L.push(placement === 'insideJsx' ? `export const t2 = () => <>{${c.startsWith('//') ? '/* ' + c.slice(3) + ' */' : c}}<b /></>;` : 'export const t2 = () => <><b /></>;');
   if (placement === 'trailing') L.push(c);
   return L.join('\n') + '\n';
 }
 
-const EFFECTIVE = new Set(['fileHead', 'beforeFirst', 'beforeMiddle', 'beforeLast']);
+const EFFECTIVE = new Set(['fileHead', 'beforeFirst', 'beforeMiddle', 'beforeLast', 'afterHashbang', 'fileHeadThenComment', 'beforeMiddleThenComment', 'fileHeadAfterComment', 'beforeLastBetweenComments']);
 
 export function* generate({ tier, seed }) {
   const rng = mulberry32(seed * 141650939 + 43);
